@@ -24,6 +24,7 @@ func init() {
 		Explanation: "C04/guard deletes the CFG edges on which VerifyClientIP is false or the two addresses are equal and demands that the call of the wrapped check becomes unreachable. C04/claim-flow follows the ClientIP claim back to identity.FromCtx(ctx).GetAttribute(\"clientIp\") and Tunnel.RemoteAddr back to the verified claim. C04/source inventories every SetAttribute(\"clientIp\", v) site and the origin of v. C04/default checks the defaults map and the writers of security.VerifyClientIP. C04/deny-path is the refusal path of the packet loop.",
 		Assumptions: []string{"the reverse proxy in front of the gateway sets X-Forwarded-For honestly (deployment assumption of the property itself)"},
 		Rules: []RuleDef{
+			{"C04/fresh-identity", "the identity that carries the request's client address is an object of this request: GetSessionIdentity returns a freshly decoded identity, never one kept in a cache or package variable (C13's rule)", func(c *Ctx) { freshIdentityAs(c, "C04/fresh-identity") }},
 			{"C04/guard", "next is reachable only over !VerifyClientIP or RemoteAddr == clientIp attribute of this context", c04Guard},
 			{"C04/claim-flow", "minted ClientIP claim = attribute clientIp; Tunnel.RemoteAddr = verified ClientIP claim", c04ClaimFlow},
 			{"C04/source", "clientIp attribute set only in EnrichContext: XFF element 0 when present, TCP peer host otherwise; middleware installed before all routes", c04Source},
